@@ -57,6 +57,7 @@ func init() {
 			{"R17.1", "Directory state is accessed under its lock", ruleCatalogLocking},
 			{"R17.2", "structural changes are serialised by the root lock; creation and registration stay together", ruleStructuralChangesSerialised},
 			{"R17.5", "adding a sub-directory drops the cached category set", ruleCategoryCacheInvalidated},
+			{"R3.5", "the catalog scan skips a half-created bucket directory and keeps its siblings", ruleCatalogLoadTolerant},
 		},
 	})
 	register(&Property{
